@@ -8,11 +8,11 @@
   OBLIGATION c08_intToFloatRound_witness
   OBLIGATION c08_strictGateI64_witness
   OBLIGATION c08_first_failure_order
-  OPEN c08_pinned_partial
+  OBLIGATION c08_pinned_partial
 
   `re` (the regex matcher) is uninterpreted throughout.
 -/
-import AGV.Lemmas.Validators
+import AGV.Lemmas.ValidatorsPinned
 
 namespace AGV.Props.C08
 open AGV.Spec.Validators AGV.Model.Validators AGV.Lemmas.Validators
@@ -82,14 +82,27 @@ theorem c08_first_failure_order :
         { multipleOf := some (.i 5), maximum := some (.i 100), minimum := some (.i 10) }
         (.list [.int 20, .int 201, .int 3]) = .err .multipleOf := by decide
 
-/-- OPEN: on the pinned tree (all four defect toggles on) the resolver is reached exactly when the
+/-- On the pinned tree (all four defect toggles on) the resolver is reached exactly when the
     specification says so for signed integers of at most 64 bits and unsigned ones of at most
-    32 bits with integer-literal bounds (no lossy conversion is possible there). -/
-def c08_pinned_partial : Prop :=
-  ∀ (re : List Char → List Char → Bool) (mode : Mode) (sh : Shape) (c : Cfg) (w : W) (bits : Nat) (signed : Bool),
-    Admissible sh w → sh.elem = .num (.int bits signed) → (signed = true ∨ bits ≤ 32) →
-    (∀ x, c.multipleOf = some (.f x) → False) → (∀ x, c.maximum = some (.f x) → False) →
-    (∀ x, c.minimum = some (.f x) → False) →
-    (reachesResolver Defects.pinned re mode sh c w ↔ mustReach re sh c w)
+    32 bits with integer-literal bounds: every parsed value lies in the `i64` range, so `as i64`
+    is the identity, no float conversion happens, and whatever the strict gate refuses beyond
+    `i64::MAX` the parser refuses too.  The four defects can only be observed on u64, f32/f64
+    or with float-literal bounds. -/
+theorem c08_pinned_partial (re : List Char → List Char → Bool) (mode : Mode) (sh : Shape) (c : Cfg) (w : W)
+    (bits : Nat) (signed : Bool)
+    (ha : Admissible sh w) (he : sh.elem = .num (.int bits signed)) (hs : signed = true ∨ bits ≤ 32)
+    (h1 : ∀ x, c.multipleOf = some (.f x) → False) (h2 : ∀ x, c.maximum = some (.f x) → False)
+    (h3 : ∀ x, c.minimum = some (.f x) → False) :
+    reachesResolver Defects.pinned re mode sh c w ↔ mustReach re sh c w := by
+  rw [← c08 re mode sh c w ha]
+  exact run_pinned_reached re mode sh c w bits signed ha he hs ⟨h1, h2, h3⟩
+
+/-- the hypotheses are met by `Vec<Option<i64>>` with three integer bounds and a list holding
+    both ends of the `i64` range; the request is refused by `minimum` (on `i64::MIN`) -/
+example : Admissible ⟨.num (.int 64 true), true, true, false⟩ (.list [.null, .int (-9223372036854775808), .int 9223372036854775807]) ∧
+    run Defects.pinned tt .strict ⟨.num (.int 64 true), true, true, false⟩
+      { multipleOf := some (.i 1), maximum := some (.i 100), minimum := some (.i (-5)) }
+      (.list [.null, .int (-9223372036854775808), .int 9223372036854775807]) = .err .minimum := by
+  refine ⟨by simp [Admissible, bitsOk], by decide⟩
 
 end AGV.Props.C08
